@@ -264,7 +264,7 @@ pub fn run(ctx: &mut Ctx) {
     for (n, ok) in r9::selftest(false) {
         ctx.selftest(&n, ok);
     }
-    ctx.require(&["annex_kat", "fixed_r_exact", "free_r", "ref_made_accepted", "bitflip_h", "bitflip_h_ge_N", "bitflip_S", "h=0", "h=N-1", "h=N", "h=2^256-1", "h+N_alias", "S=-S", "S=offcurve_y_plus_1", "S=(0,0)", "S=infinity", "S_rerandomised_Z", "msg_changed", "id_changed", "master_key_changed", "msg_empty", "id_empty", "ks=H1(id)_doubling_in_verify", "verifier_has_public_key_only", "interleaved_master_keys_same_id", "id_beyond_2^16_bits", "msg_beyond_2^16_bits", "id_changed_beyond_8191_bytes", "many_calls_one_process", "interleaved_opposite_master_keys"]);
+    ctx.require(&["annex_kat", "fixed_r_exact", "free_r", "ref_made_accepted", "bitflip_h", "bitflip_h_ge_N", "bitflip_S", "h=0", "h=N-1", "h=N", "h=2^256-1", "h+N_alias", "S=-S", "S=offcurve_y_plus_1", "S=(0,0)", "S=infinity", "S_rerandomised_Z", "msg_changed", "id_changed", "master_key_changed", "msg_empty", "id_empty", "ks=H1(id)_doubling_in_verify", "verifier_has_public_key_only", "interleaved_master_keys_same_id", "id_beyond_2^16_bits", "msg_beyond_2^16_bits", "id_changed_beyond_8191_bytes", "many_calls_one_process", "interleaved_opposite_master_keys", "id_msg_length_sweep", "key_extraction_reads_one_table_entry"]);
     let pr = r9::params();
     // --- Annex example
     if ctx.shard == 0 {
@@ -316,6 +316,59 @@ pub fn run(ctx: &mut Ctx) {
         }
         if i % 16 == 0 {
             ctx.sample(json!({"sign_case": wit(&ks, &id, &msg, Some(&r))}));
+        }
+    }
+    // --- identity lengths 0..=130 and message lengths 0..=130 (hash input lengths of H1 and H2 take every residue modulo the
+    // block size of the hash underneath); master keys solved so that the extraction reads one given entry of the
+    // fixed-base table (quick: a quarter of the 37 x 64 entries chosen by the seed, thorough: all)
+    {
+        let mut pl = ctx.prng("len_sweep");
+        for len in 0..=130u64 {
+            let sub = pl.next();
+            if !ctx.mine(len) {
+                continue;
+            }
+            let mut p = Prng::new(sub, "ls");
+            let ks = rand_scalar(&mut p, &(&pr.n - 1u32));
+            let r = rand_scalar(&mut p, &(&pr.n - 1u32));
+            let (id, msg) = (p.bytes(len as usize), p.bytes(7));
+            ctx.class("id_msg_length_sweep");
+            sign_case(ctx, &ks, &id, &msg, Some(&r), "id_length_sweep");
+            let (id, msg) = (p.bytes(5), p.bytes(len as usize));
+            sign_case(ctx, &ks, &id, &msg, Some(&r), "msg_length_sweep");
+        }
+        let mut ti = 0u64;
+        for i in 0..37usize {
+            for j in 0..64u64 {
+                ti += 1;
+                let sub = pl.next();
+                if !ctx.mine(ti) {
+                    continue;
+                }
+                let mut p = Prng::new(sub, "tb");
+                let t2 = BigUint::from(j + 1) << (7 * i);
+                if t2 >= pr.n || t2 == BigUint::from(1u32) {
+                    continue;
+                }
+                let id = p.bytes(6);
+                let h = r9::h1(&id, r9::HID_SIGN);
+                let Some(inv) = ((&pr.n + 1u32 - &t2) % &pr.n).modinv(&pr.n) else { continue };
+                let ks = (&t2 * &h % &pr.n) * inv % &pr.n;
+                if ks.is_zero() {
+                    continue;
+                }
+                ctx.class("key_extraction_reads_one_table_entry");
+                // every entry: the extracted key itself; a quarter of them (all in the thorough tier): a whole signature
+                ctx.eval();
+                match (guard(|| sign_master(&ks).extract_key(&id)), r9::g1_mul(&t2, &r9::g1_gen())) {
+                    (Outcome::Ret(Some(key)), Some(e)) if r9::ref_g1(&key.ds) == Some(e.clone()) => {}
+                    (o, _) => ctx.violation(&format!("extract_key(sign):table_entry_key:{}", if o.is_ret() { "wrong-key" } else { o.class() }), json!({"ks": hex::encode(r9::b32(&ks)), "id": hx(&id), "table_row": i, "table_entry": j})),
+                }
+                if ctx.thorough || (ti + ctx.seed) % 4 == 0 {
+                    let (msg, r) = (p.bytes(9), rand_scalar(&mut p, &(&pr.n - 1u32)));
+                    sign_case(ctx, &ks, &id, &msg, Some(&r), "table_entry_key");
+                }
+            }
         }
     }
     // --- many calls in one process: anything that depends on the number of calls made so far (a counter that wraps at
